@@ -230,6 +230,14 @@ func boundedLoop(h *ssa.BasicBlock, body map[*ssa.BasicBlock]bool) bool {
 					stepped = true
 				}
 			}
+			// a ring index: (i + c) % n
+			if bo, ok := ph.Edges[i].(*ssa.BinOp); ok && bo.Op == token.REM {
+				if in, ok := bo.X.(*ssa.BinOp); ok && in.Op == token.ADD && in.X == ssa.Value(ph) {
+					if _, isC := in.Y.(*ssa.Const); isC {
+						stepped = true
+					}
+				}
+			}
 		}
 		if !stepped {
 			continue
@@ -244,7 +252,7 @@ func boundedLoop(h *ssa.BasicBlock, body map[*ssa.BasicBlock]bool) bool {
 			if !leaves {
 				continue
 			}
-			if c, ok := ifi.Cond.(*ssa.BinOp); ok && core.RelOp(c.Op) {
+			if c, ok := ifi.Cond.(*ssa.BinOp); ok && (core.RelOp(c.Op) || c.Op == token.NEQ || c.Op == token.EQL) {
 				for _, side := range []ssa.Value{c.X, c.Y} {
 					if side == ssa.Value(ph) {
 						return true
